@@ -222,8 +222,11 @@ func runCommitWindow(k int, e cwExp, t *Trace, seg int) int {
 	}
 	// crash: the disk as it is now (everything written so far reached it), no shutdown, no flush
 	img := d.Clone()
-	ok, errs, dump, _ := recoverOn(img, true, Extents{})
+	ok, errs, dump, snap := recoverOn(img, true, Extents{})
 	t.Emit(map[string]interface{}{"ev": "crashfinal", "ok": ok, "err": errs, "dump": dump})
+	if ok {
+		t.Emit(snap) // the structure of the recovered image: bitmaps rebuilt from disk must agree with what is owned
+	}
 	func() {
 		defer func() { recover() }()
 		s.Shutdown()
